@@ -110,7 +110,7 @@ def ob_dejitter_interval(k, nref, refkind, timeout):
               bounds="interval tier k=%d, %s reference with %d timestamps, 0<maxDifference<=512" % (k, refkind, nref))
 
 
-def ob_dejitter_point(k, nref, timeout):
+def ob_dejitter_point(k, nref, timeout, labels=LABELS, tag="", known=None):
     names = ["D", "hi"] + ["t%d" % i for i in range(k)] + ["r%d" % i for i in range(nref)]
 
     def pre(D, hi, *rest):
@@ -119,7 +119,7 @@ def ob_dejitter_point(k, nref, timeout):
 
     def body(D, hi, *rest):
         ts, rs = rest[:k], rest[k:]
-        tier = PointTier("p", [Point(ts[i], LABELS[i]) for i in range(k)], 0.0, hi)
+        tier = PointTier("p", [Point(ts[i], labels[i]) for i in range(k)], 0.0, hi)
         ref = PointTier("r", [Point(r, "m") for r in rs], 0.0, hi)
         b1, b2 = snap_tier(tier), snap_tier(ref)
         r = tier.dejitter(ref, D)
@@ -129,13 +129,13 @@ def ob_dejitter_point(k, nref, timeout):
         if len(es) != k:
             return "entry count changed"
         for i in range(k):
-            if es[i][1] != LABELS[i]:
+            if es[i][1] != labels[i]:
                 return "labels/order changed"
             if not _move_ok(ts[i], es[i][0], list(rs), D):
                 return "timestamp not moved to the nearest reference iff within maxDifference"
         return True
 
-    return Ob("dejitter-p%d-point%d" % (k, nref), F(*names), body, pre, fmode="real", timeout=timeout, funcs=[FUNCS[1], FUNCS[4]], bounds="point tier k=%d, point reference with %d timestamps" % (k, nref))
+    return Ob("dejitter-p%d-point%d%s" % (k, nref, tag), F(*names), body, pre, fmode="real", timeout=timeout, funcs=[FUNCS[1], FUNCS[4]], known=known, bounds="point tier k=%d (labels %s), point reference with %d timestamps" % (k, ",".join(labels[:k]), nref))
 
 
 def ob_align(kind, timeout):
@@ -295,6 +295,7 @@ def obligations(tier):
         obs.append(ob_dejitter_interval(1, 2, "point", 400))
         obs.append(ob_dejitter_interval(1, 2, "interval", 400))
         obs.append(ob_dejitter_point(2, 2, 300))
+        obs.append(ob_dejitter_point(2, 1, 300, labels=["y", "x"], tag="-labels-desc", known="KF-C14-simultaneous-points-reordered"))
         obs.append(ob_align("interval", 400))
         obs.append(ob_align("point", 400))
         for f in ("none", "by-label"):
@@ -311,6 +312,7 @@ def obligations(tier):
         obs.append(ob_dejitter_interval(2, 2, "interval", 2400))
         for k, n in ((1, 1), (2, 2), (3, 2), (2, 3)):
             obs.append(ob_dejitter_point(k, n, 1200))
+        obs.append(ob_dejitter_point(2, 2, 1200, labels=["y", "x"], tag="-labels-desc", known="KF-C14-simultaneous-points-reordered"))
         for kd in ("interval", "point", "both"):
             obs.append(ob_align(kd, 3000))
         for f in ("none", "all", "nothing", "by-label"):
